@@ -3,6 +3,7 @@ import DadiVerif.Generated.Models
 import DadiVerif.Model.ModelPairs
 import DadiVerif.Model.ModelPerm
 import DadiVerif.Model.ModelUnits
+import DadiVerif.Model.ModelBoundary
 /- driver ops for the library-model table (C15).  Every op runs the definitions the theorems are about
    (ModelDSL.exec / canonTr / wellFormed / normalForm / nestOK / swapOK) on the generated table.
    c15.table                      -> ok <json [[name,[paramNames],[argNames]],...]>
@@ -24,6 +25,8 @@ import DadiVerif.Model.ModelUnits
                                                 "errors":[[fn,kw,Expr,unit found,unit expected],…]   (reference-size convention)
                                                 "refsites":[[fn,kw],…]}>                             (refSites)
    c15.kwunits                    -> ok <json [[fn,[[kw,expected unit|null],…]],…]>   (kwExpected on every generated signature)
+   c15.boundary <model>           -> ok <json {"ok":1|0,"nodes":[[op,lhs Expr,rhs Expr,boundaryNodeOK 1|0,substituted parameter|null],…]}>
+                                     (boundaryTr on the symbolic run at the model's own parameters: every comparison of the trace)
    <args>: `-` (empty) or comma separated: `name` (a parameter), `#n/d` or `#-n/d` (an exact literal).
    json: Expr = ["p",name] | ["t"] | ["lit",n,d] | ["sym",s] | ["neg",e] | [op,a,b] | ["call",f,e] | ["lam",b] | ["app",f,a] | ["tup",e…]
          Call = {"fn":…,"args":[[k,e],…]}   Tr = {"start":c,"steps":[c…],"fin":c} | {"if":[op,l,r],"then":t,"else":t} -/
@@ -141,6 +144,18 @@ def handle (toks : List String) : Option String :=
                 ++ q "refexplicit" ++ ":" ++ b (unitsTr false (refExplicit t)) ++ ","
                 ++ q "errors" ++ ":" ++ arr ((unitErrors true t).map (jErr true)) ++ ","
                 ++ q "refsites" ++ ":" ++ arr ((refSites table sigs md).map fun p => arr [qn p.1, qn p.2]) ++ "}")
+  | ["c15.boundary", m] =>
+      match findModel table (encodeName m) with
+      | none => some "err unknown-model"
+      | some md =>
+        match symbolicRun table sigs md.name (md.paramNames.map .param) with
+        | none => some "err stuck"
+        | some t =>
+          let ints := integrators sigs
+          some ("ok {" ++ q "ok" ++ ":" ++ (if boundaryTr ints t then "1" else "0") ++ "," ++ q "nodes" ++ ":"
+                ++ arr ((boundaryNodes ints t).map fun (c, ok) =>
+                     arr [qn c.op, jE c.lhs, jE c.rhs, (if ok then "1" else "0"),
+                          match boundarySubst c with | some (n, _) => qn n | none => "null"]) ++ "}")
   | ["c15.kwunits"] =>
       some ("ok " ++ arr (sigs.map fun s => arr [qn s.fn, arr (s.params.map fun (k, _) =>
               arr [qn k, match kwExpected k with | some kk => q (showKw false (some kk)) | none => "null"])]))
